@@ -46,7 +46,7 @@ def build_tree(rnd, root, fault, placement, st):
     names = []
     for k in range(n):
         lvl = levels[rnd.randrange(min(len(levels), 1 + k))]
-        nm = f"{'bmnpqrst'[k]}{k}.css"
+        nm = [f"{'bmnpqrst'[k]}{k}.css", f"{'bmnpqrst'[k]}{k}.min.css", f"{'bmnpqrst'[k]} {k}.css", f"{'bmnpqrst'[k]}{k}.v2.final.css"][(k + rnd.randrange(4)) % 4 if k else 0]
         rel = os.path.normpath(os.path.join(lvl, nm))
         sheet = SS.make_sheet(rnd, premium=st["premium"], default_bg=dbg, rich=False, n_rules=rnd.choice([2, 3, 5, 8]), tag=f"t{k}r",
                               allow={"var", "var-chain", "var-fallback", "var-shared", "invalid", "repeat"})
@@ -102,7 +102,8 @@ def build_tree(rnd, root, fault, placement, st):
         p = os.path.join(root, rel)
         os.makedirs(os.path.dirname(p), exist_ok=True)
         with open(p, "w") as f:
-            f.write(".h { color: #777; background-color: #fff; *zoom: 1 }\n.ok { color: #000 }\n")
+            # a top-level :root rule is always re-serialised; the error node in it makes tinycss2.serialize raise
+            f.write(":root { --v: #123456; *zoom: 1 }\n.h { color: #777; background-color: #fff; *zoom: 1 }\n.ok { color: #000 }\n")
     elif fault == "empty":
         p = os.path.join(root, rel)
         os.makedirs(os.path.dirname(p), exist_ok=True)
@@ -174,6 +175,15 @@ def judge_tree(rec, scratch, ti, pristine, sheets, faulty, orphans, fault, place
     bad_names = [k for k in first if k.endswith("_cm_cm.css")]
     if bad_names:
         rec.violation(f"directory run consumed an output file: created {bad_names}", case)
+    # everything the run created must be a documented output: sibling <name>_cm.css of an input, or the report
+    snap0, snap1 = clirun.snapshot(pristine), clirun.snapshot(work_dir)
+    allowed_new = {r[:-4] + "_cm.css" for r in list(sheets) + faulty} | {"cm_colors_report.html"}
+    stray = sorted(k for k in snap1 if k not in snap0 and k not in allowed_new)
+    if stray:
+        rec.violation(f"directory run created files that are not '<name>_cm.css' beside an input: {stray[:4]}", case)
+    for rel in sheets:
+        if rel[:-4] + "_cm.css" not in first:
+            rec.violation(f"stylesheet {rel} produced no {rel[:-4]}_cm.css in the directory run (stderr tail {err[-160:]!r})", case)
     expected_inputs = len(sheets) + len(faulty)
     if so["files_announced"] is not None and so["files_announced"] != expected_inputs:
         rec.violation(f"directory run announces {so['files_announced']} files but the tree holds {expected_inputs} stylesheet inputs (fault {fault})", case)
@@ -181,7 +191,12 @@ def judge_tree(rec, scratch, ti, pristine, sheets, faulty, orphans, fault, place
     rc2, out2, err2 = clirun.run(args, cwd)
     second = outputs(work_dir)
     rec.count("reruns_compared")
-    if rc2 != 0 or set(second) != set(first) or any(second[k] != first[k] for k in first):
+    snap2 = clirun.snapshot(work_dir)
+    so2 = clirun.parse_stdout(out2)
+    if so2["files_announced"] != so["files_announced"] or {k: v for k, v in snap2.items() if k != "cm_colors_report.html"} != {k: v for k, v in snap1.items() if k != "cm_colors_report.html"}:
+        newf = sorted(set(snap2) - set(snap1))
+        rec.violation(f"repeating the directory run is not idempotent: it announced {so2['files_announced']} files (first run {so['files_announced']}) and created {newf[:4]}", case)
+    elif rc2 != 0 or set(second) != set(first) or any(second[k] != first[k] for k in first):
         diff = sorted(set(second) ^ set(first)) or [k for k in first if second.get(k) != first[k]]
         rec.violation(f"repeating the directory run changed the outputs (status {rc2}; differing {diff[:4]})", case)
     # ---- each stylesheet alone, in a pristine copy
